@@ -605,7 +605,8 @@ def rule_parser(ctx):
     prefix_helpers = {n_: prefix_helper(f_) for n_, f_ in local_fns.items()}
     prefix_helpers = {k: v for k, v in prefix_helpers.items() if v}
     marker_fns = {f_.name for f_ in local_fns.values() if len(f_.args.args) == 1 and f_.name not in prefix_helpers and any(
-        isinstance(r, ast.Return) and r.value is not None and f"{f_.args.args[0].arg}.value.endswith('*')" in ast.unparse(_canon_marker(r.value)) for r in ast.walk(f_))}
+        isinstance(r, ast.Return) and r.value is not None and f"{f_.args.args[0].arg}.value.endswith('*')" in ast.unparse(_canon_marker(pyfront.subst_locals(f_, r.value)))
+        for r in ast.walk(f_))}
 
     prefix_exprs = set()    # what reaches nodes.Const(<prefix>), token spelled TOK
     n_sinks = 0
